@@ -75,7 +75,7 @@ theorem wfList_mem {elem : GoType} {xs : List GoVal} {x : GoVal}
 
 theorem wfEntries_mem {kt vt : GoType} {es : List (GoVal × GoVal)} {e : GoVal × GoVal}
     (h : wfEntries kt vt es = true) (he : e ∈ es) :
-    e.1.typeOf = kt ∧ e.1.wf = true ∧ e.2.typeOf = vt ∧ e.2.wf = true := by
+    e.1.typeOf = kt ∧ (e.1.wf || isNEIfaceKey e.1) = true ∧ e.2.typeOf = vt ∧ e.2.wf = true := by
   induction es with
   | nil => cases he
   | cons y ys ih =>
@@ -146,7 +146,6 @@ theorem getMap_wf {part : GoString} {kt vt : GoType} {es : List (GoVal × GoVal)
     (h : wfEntries kt vt es = true) (hg : getMap part kt es = .ok r) : RVwf r = true := by
   unfold getMap at hg
   split at hg
-  · cases hg
   · cases hg
   · split at hg
     · rename_i k v hf
@@ -248,8 +247,8 @@ theorem getStep_wf (cfg : Config) (part : GoString) (cur r : RV) (h : RVwf cur =
   split at hg
   · rename_i hu
     have := unwrapForStep_wf _ _ h hu
-    simp only [GoVal.wf] at this
-    exact applyHook_wf _ _ _ (fun x hx => getMap_wf this hx) hg
+    simp only [GoVal.wf, Bool.and_eq_true] at this
+    exact applyHook_wf _ _ _ (fun x hx => getMap_wf this.1 hx) hg
   · rename_i hu
     have := unwrapForStep_wf _ _ h hu
     simp only [GoVal.wf] at this
@@ -324,6 +323,7 @@ theorem getValue_wf (o : Opts) (d : Any) (path : List GoString) (v : Any)
     · rename_i x hx
       cases hg
       exact get_wf _ _ _ _ hd hx
+    · cases hg
     · cases hg
     · split at hg
       · rename_i u hu
@@ -592,14 +592,40 @@ theorem doMatchMatches_no_panic (re : RegexOracle) (raw : GoString) (value : RV)
     · simp only []
       split <;> simp
 
+/-- `pointerstructure.Get` does not panic on this datum, whatever the path and the configuration.
+    The real library does panic on maps keyed by a pointer type that leads to an array of an
+    uncomparable element type (`map[*[1][]int]V`): `Props/C09Keys.lean` (`getMap_panic_iff`) says
+    exactly when. -/
+def GetNoPanic (d : Any) : Prop := ∀ cfg parts, Go.get cfg parts d ≠ .error .panic
+
+theorem getValue_ne_panic (o : Opts) (d : Any) (path : List GoString) (hp : GetNoPanic d) :
+    getValue o d path ≠ .panic := by
+  unfold getValue
+  split
+  · simp
+  · simp
+  · rename_i p _
+    split
+    · simp
+    · simp
+    · rename_i hg
+      exact absurd hg (hp _ _)
+    · split
+      · simp
+      · split <;> simp
+    · simp
+
 /-- `evaluateMatchExpression` does not panic when the node is parser-shaped. -/
 theorem evaluateMatch_no_panic (re : RegexOracle) (o : Opts) (d : Any) (sel : Selector)
     (op : MatchOp) (raw : Option GoString) (hs : (raw.isSome == op.takesValue) = true)
-    (ho : OptsWf o) (hd : Any.wf d = true) : evaluateMatch re o d sel op raw ≠ .panic := by
+    (ho : OptsWf o) (hd : Any.wf d = true) (hp : GetNoPanic d) :
+    evaluateMatch re o d sel op raw ≠ .panic := by
   unfold evaluateMatch
   split
   · simp
   · simp
+  · rename_i hv
+    exact absurd hv (getValue_ne_panic o d _ hp)
   · simp
   · rename_i v hv
     have hvwf := getValue_wf _ _ _ _ ho hd hv
@@ -722,6 +748,7 @@ theorem evaluateMatch_err (re : RegexOracle) (o : Opts) (d : Any) (sel : Selecto
   unfold evaluateMatch at h
   split at h
   · cases h; rfl
+  · cases h
   · cases h
   · cases h
   · split at h
